@@ -38,6 +38,9 @@ ASSUMPTIONS = [
 QUICK_MODELS = ["dab", "sphere", "cylinder", "barbell", "capped_cylinder", "hollow_cylinder", "vesicle",
                 "core_shell_sphere", "lamellar", "fractal", "core_multi_shell", "triaxial_ellipsoid",
                 "core_shell_parallelepiped", "hayter_msa"]
+# triaxial models with >= 5 size parameters, 2-D only (cheap there): with 4-5 dispersed sizes the orientation
+# angles lose their loop slots, which is a different code path of the kernel (seeded change C01-f2)
+MESH_MODELS_2D = ["core_shell_parallelepiped", "core_shell_bicelle_elliptical"]
 MESH_MODELS_QUICK = ["sphere", "cylinder", "triaxial_ellipsoid", "multilayer_vesicle", "core_shell_bicelle", "hollow_cylinder", "vesicle"]
 BOUNDS = {
     "quick": {"models": QUICK_MODELS, "D": 2, "mesh_models": MESH_MODELS_QUICK,
@@ -56,10 +59,12 @@ A_FULL = ([["gaussian", 3, 0.1], ["rectangle", 3, 0.1], ["uniform", 3, 0.2], ["l
            ["schulz", 3, 0.1], ["boltzmann", 3, 0.1]]
           + [["gaussian", n, 0.1] for n in (2, 5, 10, 11)]
           + [["gaussian", 1, 0.1]]
-          + [["cut3"], ["cut2"], ["cut1"], ["cut0"], ["cut0n1"]])
+          + [["cut3"], ["cut2"], ["cut1"], ["cut0"], ["cut0n1"], ["onlim"]])
 # cut0n1: ONE requested point with non-zero width about a centre outside the limits (no qualifying point: the
 # background), the single-point twin of cut0 (seeded change C01-e2 short-cut npts <= 1 past the limits)
-A_SMALL = [["gaussian", 3, 0.1], ["schulz", 5, 0.1], ["rectangle", 2, 0.1], ["cut1"], ["cut0"], ["cut0n1"]]
+# onlim: a gaussian grid whose outermost point falls EXACTLY on a finite hard limit (limits are inclusive); its
+# reference grid is built here, independently of weights.py (seeded change C01-f1 dropped the point on the limit)
+A_SMALL = [["gaussian", 3, 0.1], ["schulz", 5, 0.1], ["rectangle", 2, 0.1], ["cut1"], ["cut0"], ["cut0n1"], ["onlim"]]
 CUTOFFS = [1e-5, 0.05, 0.999, 1.5, "eqmin"]
 # single-precision builds of the same loop (the statement says "every compiled model", not "in double"): the whole
 # generated source is converted, so weights, cutoff and every accumulator are float32.  Judged against single-point
@@ -103,7 +108,7 @@ def par_by_name(info, name):
 
 
 def setup(ctx):
-    names = QUICK_MODELS + MESH_MODELS_QUICK if ctx.quick else build.compiled_models()
+    names = QUICK_MODELS + MESH_MODELS_QUICK + MESH_MODELS_2D if ctx.quick else build.compiled_models()
     bad = build.prebuild(ctx, names)
     if bad:
         raise HarnessError("models failed to build: %r" % bad)
@@ -157,6 +162,12 @@ def cases(ctx):
                 for lengths in fam:
                     out.append({"kind": "mesh", "model": m, "lengths": lengths})
                     # the 2-D kernels are separate instantiations of the loop (never the <F>,<F^2> variant)
+                    out.append({"kind": "mesh", "model": m, "lengths": lengths, "q": "2d"})
+    for m in (MESH_MODELS_2D if ctx.quick else []):
+        names = disp_names(build.info(m))
+        for k, fam in MESH_FAMILY.items():
+            if len(names) >= k and k <= build.info(m).parameters.max_pd:
+                for lengths in fam:
                     out.append({"kind": "mesh", "model": m, "lengths": lengths, "q": "2d"})
     # Part B: partitions on the raw kernel
     # bit-identity does not need expensive kernels: cheap analytic models + the probe (unit and non-unit weights)
@@ -223,12 +234,19 @@ def _trunc(par, v, which):
     return None
 
 
-def _defaults(info, factor=1.0):
+VIEW = {"theta": 35.0, "phi": 20.0, "psi": 50.0}
+
+
+def _defaults(info, factor=1.0, qkind="1d"):
     pars = {}
     for p in info.parameters.call_parameters:
         if p.name in ("scale", "background"):
             continue
         v = p.default
+        if qkind == "2d" and p.type == "orientation" and p.name in VIEW:
+            # a generic view: no angle is 0, so an angle that is applied twice or not at all shows (the reference
+            # is made of single-point evaluations at the same view)
+            v = VIEW[p.name]
         if p.type == "volume" and factor != 1.0 and np.isfinite(v):
             lo, hi = p.limits
             w = v * factor
@@ -268,12 +286,24 @@ def _compare(r, case, m, qkind, base, spec, cutoff, fk, extra_branches=(), dtype
     pars = dict(base)
     disp = {}
     single = False
+    on_limit = False
     for name, (t, n, w, ns) in spec.items():
         pars[name + "_pd"] = w
         pars[name + "_pd_n"] = n
         pars[name + "_pd_type"] = t
         pars[name + "_pd_nsigma"] = ns
-        x, wt = refmodel.par_dist(par_by_name(info, name), t, n, w, ns, base[name])
+        par = par_by_name(info, name)
+        x, wt = refmodel.par_dist(par, t, n, w, ns, base[name])
+        if t == "gaussian" and ns == 2.0 and n == 5 and w > 0 and par.type != "orientation":
+            # the on-limit alternative: documented grid and density written out here, limits inclusive
+            c, sig = base[name], w * base[name]
+            gx = np.linspace(c - ns * sig, c + ns * sig, n)
+            gw = np.exp(-0.5 * ((gx - c) / sig) ** 2)
+            keep = (gx >= par.limits[0]) & (gx <= par.limits[1])
+            gx, gw = gx[keep], gw[keep]
+            if len(gx) and (gx[0] == par.limits[0] or gx[-1] == par.limits[1]):
+                on_limit = True
+            x, wt = gx, (gw / gw.sum() if len(gw) else gw)
         disp[name] = (x, wt)
         if len(x) == 1 and x[0] != base[name]:
             single = True
@@ -303,6 +333,8 @@ def _compare(r, case, m, qkind, base, spec, cutoff, fk, extra_branches=(), dtype
         br.append("valid-excluded")
     if single:
         br.append("single-point-not-nominal")
+    if on_limit:
+        br.append("point-on-a-hard-limit")
     if ref["nqual"] == 0:
         br.append("zero-point")
     if ref["verdict_mismatch"]:
@@ -378,7 +410,7 @@ def _run_mean(case, ctx):
     dtype = cfg.get("dtype", "double")
     m = build.model(case["model"], dtype)
     info = m.info
-    base = _defaults(info, cfg.get("nominal", 1.0))
+    base = _defaults(info, cfg.get("nominal", 1.0), cfg.get("q", "1d"))
     spec = {}
     fk = {"model": case["model"]}
     for key, alt in cfg.items():
@@ -386,6 +418,19 @@ def _run_mean(case, ctx):
             continue
         name = key[3:]
         par = par_by_name(info, name)
+        if alt[0] == "onlim":
+            lo, hi = par.limits
+            v = base[name]
+            if not (v > 0 and np.isfinite(v)):
+                continue
+            if np.isfinite(lo) and v > lo:
+                w = (v - lo) / (2.0 * v)
+            elif np.isfinite(hi) and v < hi:
+                w = (hi - v) / (2.0 * v)
+            else:
+                continue
+            spec[name] = ("gaussian", 5, w, 2.0)
+            continue
         if alt[0].startswith("cut"):
             tr = _trunc(par, base[name], alt[0])
             if tr is None:
@@ -409,7 +454,7 @@ def _run_mesh(case, ctx):
     names = disp_names(info, positive_only=True)[:len(case["lengths"])]
     if len(names) < len(case["lengths"]):
         return r.ok(outcome="skipped: not enough dispersible parameters with a positive default")
-    base = _defaults(info)
+    base = _defaults(info, 1.0, case.get("q", "1d"))
     spec = {n: ("gaussian", L, 0.05, 2.0) for n, L in zip(names, case["lengths"])}
     _compare(r, case, m, case.get("q", "1d"), base, spec, 0.0,
              {"model": case["model"], "mesh": "x".join(map(str, case["lengths"]))},
@@ -602,6 +647,7 @@ def finish(ctx, report):
     report.require("single-point-not-nominal", 10, "distribution truncated to one point != nominal")
     report.require("zero-point", 10, "mesh with no qualifying point")
     report.require("refusal", 1, "more dispersed parameters than loop slots")
+    report.require("point-on-a-hard-limit", 20, "a distribution point exactly on a finite hard limit")
     report.require("single-precision", 200, "single-precision builds of the dispersity loop")
     report.require("probe-decoded", 5, "visited-set probe")
     report.require("partitions", 20, "partition enumeration")
